@@ -42,7 +42,7 @@ def run_check(prop, tier, *, lean_module, cases, execute, compare, oracle, class
       raise common.Infra(f'driver rejected request: {model} {json.dumps(req)[:300]}')
     if model is not None and normalise_model:
       model = normalise_model(model)
-    diffs = compare(real, model) if model is not None else []
+    diffs = compare(real, model)      # model is None when the property module talks to the driver itself
     fail = oracle(case, real)
     if count:
       n += 1
